@@ -133,9 +133,12 @@ Section Gen.
 
   (* il : Frame.in_loop_body;  lf : Frame.loop_frame;  bf : Frame.block_frame.
      A call whose explicit keywords collide with the keywords the generator adds itself is
-     refused by CodeGenerator.signature (TemplateAssertionError). *)
+     refused by CodeGenerator.signature (TemplateAssertionError); _loop_vars and _block_vars are
+     refused as explicit keywords of every call (Context.call would strip them). *)
+  Definition reserved_free (kws : list name) : bool := negb (memb LOOPVARS kws) && negb (memb BLOCKVARS kws).
   Definition gen_call (fc lf bf : bool) (kws : list name) : res (list py) :=
-    if nodupb kws && disjb kws (extras fc lf bf) then Ok [PCall (kws ++ extras fc lf bf)] else SyntaxErr.
+    if nodupb kws && disjb kws (extras fc lf bf) && reserved_free kws
+    then Ok [PCall (kws ++ extras fc lf bf)] else SyntaxErr.
 
   Fixpoint gen (il lf bf : bool) (s : stmt) {struct s} : res (list py) :=
     let gens := fix gens (il lf bf : bool) (l : list stmt) {struct l} : res (list py) :=
